@@ -301,6 +301,46 @@ fn show_seen(s: &Seen) -> String {
     format!("{}/{:04x}/{}/{}/{}/{}/{}/{}/{}", s.cfg.wrapping_sub(0x1000), s.cfg, s.alias, s.vendor, s.product, s.revision, s.serial, hex(s.name.as_bytes()), s.dc)
 }
 
+/// A ring of `n` plain devices (far beyond the group capacities the other cases use): only the address clause is
+/// judged — after init the device at ring position i holds station address 0x1000 + i, all distinct. Monitor only
+/// (the model line answers `n/a`): added after seed C09e (`0x1000 | i`, identical below 4096 devices).
+fn big_ring(n: usize, rep: &mut Report) {
+    let line = format!("c09 bigring {n}");
+    ecverif::progress::about_to_run(&line);
+    // the group (8192 SubDevice records) and the init future live on the stack: run on a thread with a large one
+    let (tok, stations): (String, Vec<u16>) = std::thread::Builder::new()
+        .stack_size(1 << 30)
+        .spawn(move || {
+            let descs: Vec<DeviceDesc> = (0..n).map(|_| DeviceDesc { name: Some("R".into()), ..DeviceDesc::default() }).collect();
+            let seg = Segment::from_descs(&descs);
+            let (mut net, md) = Net::new(seg, 16, 1128, Timeouts::default(), MainDeviceConfig { dc_static_sync_iterations: 0, ..Default::default() });
+            net.step_limit = 400_000_000;
+            let r = catch_unwind(AssertUnwindSafe(|| run(&mut net, async { md.init_single_group::<8192, 1>(|| ecverif::clock::now() * 1000).await.map(|g| g.len()) })));
+            let tok = match &r {
+                Err(_) => "panic".to_string(),
+                Ok(Err(_)) => "stuck".to_string(),
+                Ok(Ok(Err(e))) => format!("err:{}", err_token(e)),
+                Ok(Ok(Ok(k))) => format!("ok:{k}"),
+            };
+            (tok, net.seg.devices.iter().map(|d| d.station_address()).collect())
+        })
+        .expect("spawn")
+        .join()
+        .unwrap_or_else(|_| ("panic".to_string(), vec![]));
+    if stations.len() != n {
+        rep.fail("c09/big-ring-result", &format!("ring of {n}: the run died ({tok})"), &line);
+        rep.case(line, "n/a".into());
+        return;
+    }
+    if let Some(i) = (0..n).find(|i| stations[*i] != 0x1000u16.wrapping_add(*i as u16)) {
+        rep.fail("c09/big-ring-address", &format!("ring of {n}: device at position {i} holds station address {:#06x}, expected {:#06x} (init: {tok})", stations[i], 0x1000u16.wrapping_add(i as u16)), &line);
+    } else if tok != format!("ok:{n}") {
+        rep.fail("c09/big-ring-result", &format!("ring of {n}: init answered {tok}, expected ok:{n}"), &line);
+    }
+    rep.hit("bigring");
+    rep.case(line, "n/a".into());
+}
+
 fn run_case(c: &Case, rep: &mut Report) {
     let line = c.to_line();
     let n = c.devs.len();
@@ -691,6 +731,10 @@ fn main() {
             if replay_net_case(&l, &mut rep) {
                 continue;
             }
+            if let Some(n) = l.strip_prefix("c09 bigring ").and_then(|x| x.trim().parse::<usize>().ok()) {
+                big_ring(n.min(8191), &mut rep);
+                continue;
+            }
             match Case::from_line(&l) {
                 Some(c) => run_case(&c, &mut rep),
                 None => rep.notes.push(format!("unparsable replay case: {l}")),
@@ -717,6 +761,11 @@ fn main() {
     // the environment semantics the theorems rest on: simulator vs EcModel.Net
     for _ in 0..(if args.tier == "thorough" { 40_000 } else { 6_000 }) {
         run_net_case(&mut rng, &mut rep);
+    }
+    // the address clause beyond 4096 devices (0x1000 + i has a carry out of the low 12 bits only there)
+    // (more than an hour on this simulator: every frame passes 4100 simulated devices; only with C09_BIGRING=1, in no tier)
+    if std::env::var_os("C09_BIGRING").is_some() {
+        big_ring(4100, &mut rep);
     }
     rep.notes.push(format!("corpus cases: {}", corpus.len()));
     rep.write(&args.out, "c09");
